@@ -1,8 +1,8 @@
 (* C02: the Fun-to-Core translation preserves meaning and never captures variables.
    Only statements here; models in Model/Fun2Core.v, semantics in Sem/FunSem.v and Sem/CoreSem.v,
    proofs in Proof/Fun2CoreProof.v. *)
-From Coq Require Import List ZArith String Bool.
-From SCC Require Import Lang.FunSyn Lang.CoreSyn Sem.AxSem Sem.CoreSem Sem.FunSem Model.Fun2Core Proof.Fun2CoreProof.
+From Coq Require Import List ZArith NArith String Bool.
+From SCC Require Import Lang.FunSyn Lang.CoreSyn Sem.AxSem Sem.CoreSem Sem.FunSem Model.Fun2Core Proof.Fun2CoreProof Proof.Fun2CoreSim.
 Import ListNotations.
 
 (* ---------- the property at full strength (statements) ----------
@@ -17,11 +17,11 @@ Definition fun2core_correct_statement : Prop :=
     exists m, run_core m c args = o.
 
 (* the guarded form that is expected to hold: binders of each definition pairwise distinct and
-   distinct from its parameters ([barendregt]), and every goto annotated with its label's type *)
+   distinct from its parameters ([barendregt]) *)
 Definition fun2core_correct_guarded_statement : Prop :=
   forall (p : fcprog) (c : cprog) (args : list Z) (n : nat) (o : obs),
     annotated_fcprog p = true -> effect_sequenced p = true ->
-    barendregt p = true -> goto_type_mismatch_prog p = false ->
+    barendregt p = true ->
     compile_prog p = Ok c ->
     run_fun n p args = o -> defined o = true ->
     exists m, run_core m c args = o.
@@ -40,6 +40,33 @@ Theorem C02_fun2core_capture_refuted :
 Proof. exact fun2core_capture_refuted_lemma. Qed.
 Print Assumptions C02_fun2core_capture_refuted.
 
+(* REPAIRED defect (fix commit 126604b of /repo), kept as regression statements.  Before the fix the
+   target covariable of `goto k (t)` was typed with the annotation of the goto expression instead of
+   k's type; typed_free_vars then missed k's binder, a lifted continuation got a spurious parameter
+   and the translated program was NOT CLOSED.  [compile_prog_before_fix] is the model with the old
+   goto rule (only used here). *)
+Theorem C02_fun2core_goto_unbound_before_fix :
+  exists (p : fcprog) (args : list Z) (c : cprog) (n : nat),
+    annotated_fcprog p = true /\ effect_sequenced p = true /\ shadowing_risk_prog p = false /\
+    goto_type_mismatch_prog p = true /\
+    compile_prog_before_fix p = Ok c /\
+    cprog_closed c = false /\
+    defined (run_fun n p args) = true /\
+    run_fun n p args <> run_core n c args.
+Proof. exact fun2core_goto_unbound_before_fix_lemma. Qed.
+Print Assumptions C02_fun2core_goto_unbound_before_fix.
+
+(* ... and the CURRENT translation (the model follows the repaired code; model = Rust is checked on
+   every run, this witness included) turns the same program - corpus/fun/c02_unbound_covar.sc - into a
+   closed Core program with the source's behaviour. *)
+Theorem C02_goto_witness_fixed :
+  compile_prog goto_witness = Ok (compiled_or_empty goto_witness) /\
+  cprog_closed (compiled_or_empty goto_witness) = true /\
+  run_core 200 (compiled_or_empty goto_witness) [] = run_fun 200 goto_witness [] /\
+  run_fun 200 goto_witness [] = ([(true, 4%Z)], OExit 0%Z).
+Proof. exact goto_witness_fixed_lemma. Qed.
+Print Assumptions C02_goto_witness_fixed.
+
 (* ---------- generated names are fresh ---------- *)
 (* fresh_name(used, base) returns a name that is not in `used` and inserts exactly that name
    (the bounded search of the model always succeeds). *)
@@ -54,8 +81,8 @@ Print Assumptions C02_fresh_name_fresh.
    none of which was in the set before.  used_vars starts as the parameters plus all binders of the
    definition, used_labels as all definition names: generated names never coincide with user-chosen
    ones or with each other. *)
-Theorem C02_translation_names_fresh : forall codata cur t cont st s st',
-  wc codata cur t cont st = Ok (s, st') ->
+Theorem C02_translation_names_fresh : forall codata cur lg t cont st s st',
+  wc codata cur lg t cont st = Ok (s, st') ->
   (exists gv, st_used_vars st' = gv ++ st_used_vars st /\ NoDup gv /\ forall x, In x gv -> ~ In x (st_used_vars st)) /\
   (exists gl, st_used_labels st' = gl ++ st_used_labels st /\ NoDup gl /\ forall x, In x gl -> ~ In x (st_used_labels st)).
 Proof. exact translation_names_fresh. Qed.
@@ -72,3 +99,87 @@ Theorem C02_share_label_fresh : forall cur cont st k st',
     st_lifted st' = mkcd (new_id name) ctx body :: st_lifted st.
 Proof. exact share_label_fresh. Qed.
 Print Assumptions C02_share_label_fresh.
+
+(* Definition names of the translated program are pairwise distinct whenever the source's are: user
+   definitions keep their names, every lifted definition is named by its generated label, and
+   generated labels never coincide with a user definition name or with another generated label, of
+   the same or of any other definition (used_labels is threaded through the whole program). *)
+Theorem C02_compile_prog_def_names_distinct : forall p c,
+  compile_prog p = Ok c ->
+  NoDup (map fdname (fcpdefs p)) ->
+  NoDup (map cdname (cpdefs c)).
+Proof. exact compile_prog_def_names_distinct. Qed.
+Print Assumptions C02_compile_prog_def_names_distinct.
+
+(* ---------- structure of the translation ---------- *)
+(* compile_with_cont of an integer expression (literal, variable, operator, parentheses) is the cut of
+   its `compile` translation against the continuation, whatever the continuation is; in particular a
+   variable is translated to that variable and a literal to that literal (no administrative redex) *)
+Theorem C02_wc_expression_is_cut : forall e, iexp e = true ->
+  forall codata cur lg cont st sr st', wc codata cur lg e cont st = Ok (sr, st') ->
+  exists ce, (forall ty, cmp codata cur lg e ty st = Ok (ce, st')) /\ sr = CCut ce CI64 cont.
+Proof. exact wc_iexp. Qed.
+Print Assumptions C02_wc_expression_is_cut.
+
+(* the hygiene statement at full strength, NOT proved (and false without the guard, see the capture
+   witness): under [barendregt] the Core machine on the translated
+   program reproduces the source - this is fun2core_correct_guarded_statement above; its name-level
+   reading "every occurrence of a source variable, covariable or label in compile_prog p is bound by
+   the translation of its source binder" follows from it for all variables that matter
+   observationally.  What IS proved about names: C02_translation_names_fresh,
+   C02_share_label_fresh, C02_compile_prog_def_names_distinct (generated names never collide with
+   user names or with each other). *)
+
+(* ---------- semantic preservation, PARTIAL ----------
+   Proved for programs whose `main` lies in the first-order integer fragment [islf]: literals, i64
+   variables, operators, parentheses, non-codata `let` of an expression, print_i64/println_i64, exit,
+   one- and two-operand conditionals (other definitions of the program are arbitrary; the fragment
+   has no calls).  For these programs EVERY source run that does not run out of fuel - normal exit,
+   undefined arithmetic, even an unbound variable - is reproduced exactly (output and outcome) by
+   the Core machine on the model's translation; shadowing is allowed (no capture is possible here:
+   bound terms are expressions).
+   MISSING for fun2core_correct_guarded_statement: calls, constructors/case, new/destructors and
+   by-name bindings, label/goto, `let` whose bound term is not an expression, and shared
+   continuations (a conditional or case in non-tail position). *)
+Theorem C02_fun2core_correct_partial :
+  forall (p : fcprog) (c : cprog) (d : fdef) (args : list Z) (n : nat) (o : obs),
+    compile_prog p = Ok c ->
+    NoDup (map fdname (fcpdefs p)) ->
+    ffind_def p "main" = Some d ->
+    islf (fdbody d) = true ->
+    run_fun n p args = o -> snd o <> OOutOfFuel ->
+    exists m, run_core m c args = o.
+Proof. exact fun2core_correct_partial_lemma. Qed.
+Print Assumptions C02_fun2core_correct_partial.
+
+(* ---------- for property C19 (output size): continuations are shared, not duplicated ---------- *)
+(* `if` with a continuation that is not a leaf: the continuation is lifted ONCE by `share` (it sits in
+   the lifted definition d, whose body is at most 2 nodes larger) and both branches are translated
+   with the same small continuation k = mu~ x. share_f_n(free variables), whose size depends only on
+   the number of free variables; the size of the result is 1 + operands + the two branches. *)
+Theorem C02_fun2core_ifc_shares_continuation : forall cur s ca cb wt we cont st r st',
+  cont_is_small cont = false ->
+  wc_ifc cur s ca cb wt we cont st = Ok (r, st') ->
+  exists k st1 d a b t e st2 st3,
+    share cur cont st = Ok (k, st1) /\
+    st_lifted st1 = d :: st_lifted st /\
+    (size_cstmt (cdbody d) <= size_cterm cont + 2)%N /\
+    (size_cterm k = 2 + N.of_nat (List.length (cdctx d)))%N /\
+    wt k st2 = Ok (t, st3) /\ we k st3 = Ok (e, st') /\
+    r = CIfC (sort_of s) a b t e /\
+    (size_cstmt r = 1 + size_cterm a + match b with Some b' => size_cterm b' | None => 0 end
+                    + size_cstmt t + size_cstmt e)%N.
+Proof. exact fun2core_ifc_shares_continuation. Qed.
+Print Assumptions C02_fun2core_ifc_shares_continuation.
+
+Theorem C02_fun2core_case_shares_continuation : forall cur wscrut sty n ccls cont st r st',
+  cont_is_small cont = false -> (2 <= n)%nat ->
+  wc_case cur wscrut sty n ccls cont st = Ok (r, st') ->
+  exists k st1 d,
+    share cur cont st = Ok (k, st1) /\
+    st_lifted st1 = d :: st_lifted st /\
+    (size_cstmt (cdbody d) <= size_cterm cont + 2)%N /\
+    (size_cterm k = 2 + N.of_nat (List.length (cdctx d)))%N /\
+    exists cls st2 ty, ccls k st1 = Ok (cls, st2) /\ wscrut (CXCase CCns cls ty) st2 = Ok (r, st').
+Proof. exact fun2core_case_shares_continuation. Qed.
+Print Assumptions C02_fun2core_case_shares_continuation.
